@@ -385,6 +385,17 @@ func genSpec(t *rapid.T, wide bool) *Spec {
 			continue
 		}
 		s.Exchanges = append(s.Exchanges, exchange(t, u))
+		{
+			e := &s.Exchanges[len(s.Exchanges)-1]
+			if rapid.IntRange(0, 11).Draw(t, "strayvariants") == 0 {
+				// one captured representation of a negotiated resource: Variants / Variant-Key fields on the
+				// ONLY response for its URL (no variant set is formed; the fields are ordinary header fields)
+				e.Headers = append(e.Headers, gen.HeaderKV{Name: "Variants", Values: []string{rapid.SampledFrom([]string{"Accept-Language;en;ja", "Accept-Encoding;gzip;br;identity", "Accept-Language;en", "Accept-Language;en;ja, Accept-Encoding;gzip;br"}).Draw(t, "strayv")}})
+				if rapid.Bool().Draw(t, "strayvk") {
+					e.Headers = append(e.Headers, gen.HeaderKV{Name: "Variant-Key", Values: []string{"en"}})
+				}
+			}
+		}
 		if wide && rapid.IntRange(0, 7).Draw(t, "odd") == 0 {
 			e := &s.Exchanges[len(s.Exchanges)-1]
 			e.Headers = append(e.Headers, oddHeader(t))
@@ -585,4 +596,3 @@ func AlignTo(s *Spec, target string, mod, off int) bool {
 	}
 	return false
 }
-
